@@ -35,11 +35,13 @@ ASSUMPTIONS = [
     'fault positions are user callables (spec function, Invoke, T.method()), Check validators, property getters '
     'reached by a path, the next() of a one-shot iterator target (generator, iterator object, generator under a '
     'key) walked by [subspec] at its 1st or 2nd item, the index / argument spec of a T operation (T[Spec(f)], '
-    'T[Invoke(f)], T.m(Spec(f))), and glom-detected failures, below chains of constructs; siblings of the chain are fixed '
+    'T[Invoke(f)], T.m(Spec(f))), the key spec of First / Iter().first / (step, First), a method call or index spec '
+    'after a T-style wildcard, and glom-detected failures, below chains of constructs; siblings of the chain are fixed '
     'per construct variant',
     'classes that cannot be subclassed (metaclass / __init_subclass__ tricks) are not in the catalogue',
-    'StopIteration below the lazy Iter() construct or raised by a generator target is converted to RuntimeError by '
-    'Python itself (PEP 479) and left out',
+    'StopIteration below the lazy Iter() construct, raised by a generator target (converted to RuntimeError by Python '
+    'itself, PEP 479) or inside the key of First (ends the search) is left out; a fault that is itself a '
+    'PathAccessError after a wildcard is a documented miss (C14) and left out',
     'top-level defaults tried: opaque object, None, a list, a dict holding a T expression and a list, T itself; '
     'identity of the returned default is what is judged',
     'TLC, the Json community module and the probe nodes (checked to be transparent by probe-less re-runs) are trusted',
@@ -64,7 +66,7 @@ def check_catalogue(leaf):
     if cid in _CAT_OK or leaf['kind'] == 'glomdoc':
         return
     m = W.measure(W.CATALOGUE[cid](), cid, leaf['kind'])
-    for k in ('anc', 'exc', 'glom', 'kind', 'truthy'):
+    for k in ('anc', 'exc', 'glom', 'kind', 'truthy', 'eq'):
         if m[k] != leaf[k]:
             raise vlib.MachineryError('catalogue drift for %s: %s measured %r, spec %r' % (cid, k, m[k], leaf[k]))
     # (how copy.copy treats a subclass of a library class is the library's business: judged by the laws)
@@ -79,7 +81,7 @@ def n_hows(ctxs, leaf):
         return len(W.GLOM_LEAVES[leaf['id']])
     if ctxs and ctxs[-1]['k'] == 'geniter':
         return 3
-    if ctxs and ctxs[-1]['k'] in ('checkval', 'pathget', 'targ'):
+    if ctxs and ctxs[-1]['k'] in ('checkval', 'pathget', 'targ', 'firstkey', 'afterstar'):
         return 1
     return len(W.USER_HOWS)
 
@@ -251,6 +253,12 @@ def synth(rng):
             super(cls_box[0], self).__init__(p if q is None else (p, q))
         ns['__init__'] = __init__
         mk = (lambda cls: cls(a, b)) if rng.random() < 0.5 else (lambda cls: cls(a))
+    r_eq = rng.random()
+    if r_eq < 0.1:               # naive value-based __eq__ (raises on a foreign operand)
+        ns['__eq__'] = lambda self, other: self.args == other.args
+    elif r_eq < 0.15:            # equal to everything
+        ns['__eq__'] = lambda self, other: True
+        ns['__hash__'] = BaseException.__hash__
     if rng.random() < 0.15:      # falsy instances
         if rng.random() < 0.5:
             ns['__len__'] = lambda self: 0
@@ -304,10 +312,13 @@ def rand_row(rng):
     else:
         make_exc, desc = synth(rng)
         cid, kind = 'RCls', 'user'
-    if kind != 'glomdoc' and rng.random() < 0.3:
-        lk = rng.choice(['checkval', 'pathget', 'geniter', 'geniter', 'targ', 'targ'])
+    if kind != 'glomdoc' and rng.random() < 0.4:
+        lk = rng.choice(['checkval', 'pathget', 'geniter', 'geniter', 'targ', 'targ', 'firstkey', 'firstkey',
+                         'afterstar', 'afterstar'])
         ctxs.append(dict(k=lk, v=rng.choice(['k1', 'k2']) if lk == 'geniter' else
-                         rng.choice(['idx_spec', 'idx_invoke', 'call_spec']) if lk == 'targ' else '-', skip='-', sib='-', dflt='-'))
+                         rng.choice(['idx_spec', 'idx_invoke', 'call_spec']) if lk == 'targ' else
+                         rng.choice(['first', 'iterfirst', 'afterstep']) if lk == 'firstkey' else
+                         rng.choice(['call', 'ss_call', 'idx_spec']) if lk == 'afterstar' else '-', skip='-', sib='-', dflt='-'))
     kw = dict(default=rng.choice(KW_DEFAULTS), skip=rng.choice(KW_SKIPS), debug=rng.random() < 0.3)
     how = rng.randint(0, 11)
     if kind == 'glomdoc':
@@ -324,7 +335,9 @@ def rand_row(rng):
             raise vlib.MachineryError('glom leaf %s did not fail' % cid)
         leaf = W.measure(w.first, cid, 'glomdoc')
     # StopIteration through a generator frame (Iter, generator target): Python's own conversion
-    if cid == 'StopIter' and any((c['k'] == 'pass' and c['v'] == 'iter') or c['k'] == 'geniter' for c in ctxs):
+    if cid == 'StopIter' and any((c['k'] == 'pass' and c['v'] == 'iter') or c['k'] in ('geniter', 'firstkey') for c in ctxs):
+        return None
+    if cid == 'SubPAE' and any(c['k'] == 'afterstar' for c in ctxs):
         return None
     # Not over a passing child: outside the universe
     for e in evs:
@@ -396,7 +409,8 @@ def corrupted_row_rejected(check, rows):
     check.extra['corrupted_row_rejected'] = True
 
 
-MUTANTS = {'falsy_swallowed': 'InvClassKept', 'copy_hardcodes_base': 'InvClassKept',
+MUTANTS = {'eq_compare': 'CreatedAreDocumented', 'firstkey_nested_top': 'TransparentLaw',
+           'star_drops_glomerror': 'TransparentLaw', 'falsy_swallowed': 'InvClassKept', 'copy_hardcodes_base': 'InvClassKept',
            'falsy_skip_omitted': 'InvDefaultSelective', 'arg_in_guard': 'TransparentLaw', 'default_arg_val': 'InvDefaultSelective', 'iter_wraps': 'CreatedAreDocumented', 'copy_unguarded': 'InvClassKept', 'ctor_rerun': 'InvClassKept', 'skip_after_wrap': 'InvDefaultSelective', 'default_none_absent': 'InvDefaultSelective',
            'debug_copies': 'InvDebug', 'wrap_glom_only': 'InvClassKept', 'wrap_no_fallback': 'InvClassKept',
            'or_catches_all': 'PassThroughLaw'}
@@ -427,8 +441,8 @@ def main(tier, seed):
             raise vlib.MachineryError('sany failed on %s:\n%s' % (m, out[-2000:]))
     # (1)+(2) TLC checks every law on the transcribed mechanism (MC_C04.cfg) while exploring the
     # behaviours; the same run is dumped and every behaviour replayed into the real library
-    runs = {'quick': [(0, 0, True, 'full'), (1, 1, True, 'mid'), (2, 2, False, 'small')],
-            'thorough': [(0, 1, True, 'full'), (2, 2, True, 'small'), (3, 3, False, 'tiny')]}[tier]
+    runs = {'quick': [(0, 0, True, 'full'), (1, 1, True, 'mid'), (2, 2, False, 'tiny')],
+            'thorough': [(0, 1, True, 'full'), (2, 2, True, 'tiny'), (3, 3, False, 'tiny')]}[tier]
     acts, pending = {}, []
     total = dict(cases=0, agree=0, excluded=0)
     for (mind, maxd, rich, kwmode) in runs:
@@ -452,7 +466,7 @@ def main(tier, seed):
     check.extra['replayed'] = total
     check.extra['action_counts'] = acts
     needed = ['RaiseAt', 'Pass', 'CatchCoalesce', 'CatchOr', 'CatchAnd', 'CatchNot', 'CatchMatchDefault',
-              'CatchSwitch', 'CatchCheckSpec', 'CatchCheckVal', 'CatchPathGet', 'PassIter', 'PassArg', 'TopReturn', 'TopSkip', 'TopBase',
+              'CatchSwitch', 'CatchCheckSpec', 'CatchCheckVal', 'CatchPathGet', 'PassIter', 'PassArg', 'PassFirstKey', 'PassAfterStar', 'TopReturn', 'TopSkip', 'TopBase',
               'TopDebug', 'TopCopy', 'TopWrap']
     missing = [a for a in needed if not acts.get(a)]
     if missing or not total['excluded']:
